@@ -483,30 +483,31 @@ Definition in_srcs (S : port -> list src) (nd : node) (i : nat) : list src :=
 
 Definition is_unk (s : src) : bool := match s with SrcUnk => true | _ => false end.
 
-Definition site_b (n : netlist) (S : port -> list src) (nd : node) : bool :=
+(* nodes that use the base rule: cr_mix || cr_unk || cr_own *)
+Definition site_base (n : netlist) (S : port -> list src) (nd : node) : bool :=
   let ps := pin_source n in
   let idx := seq 0 (length (nins nd)) in
-  match nkind nd with
-  | KSig2Clk | KSig2Rst => false
-  | KCdc =>
-      existsb (fun s => match s, nth_error (nclocks nd) 0 with
-                        | SrcClk d, Some (Some ic) => negb (Nat.eqb (ps d) (ps ic))
-                        | _, _ => true
-                        end) (in_srcs S nd 0)
-  | _ =>
-      let all := flat_map (in_srcs S nd) idx in
-      (* cr_mix *)
-      existsb (fun s1 => existsb (fun s2 =>
-         match s1, s2 with SrcClk a, SrcClk b => negb (Nat.eqb (ps a) (ps b)) | _, _ => false end) all) all
-      (* cr_unk *)
-      || existsb (fun i => existsb is_unk (in_srcs S nd i)
-                           && existsb (fun j => negb (Nat.eqb i j)
-                                                && match in_srcs S nd j with [] => false | _ => true end) idx) idx
-      (* cr_own *)
-      || match own_clock nd with
-         | None => false
-         | Some c => existsb (fun s => match s with SrcClk d => negb (Nat.eqb (ps d) (ps c)) | SrcUnk => true end) all
-         end
-  end.
+  let all := flat_map (in_srcs S nd) idx in
+  existsb (fun s1 => existsb (fun s2 =>
+     match s1, s2 with SrcClk a, SrcClk b => negb (Nat.eqb (ps a) (ps b)) | _, _ => false end) all) all
+  || existsb (fun i => existsb is_unk (in_srcs S nd i)
+                       && existsb (fun j => negb (Nat.eqb i j)
+                                            && match in_srcs S nd j with [] => false | _ :: _ => true end) idx) idx
+  || match own_clock nd with
+     | None => false
+     | Some c => existsb (fun s => match s with SrcClk d => negb (Nat.eqb (ps d) (ps c)) | SrcUnk => true end) all
+     end.
+
+(* crossing markers: cr_cdc *)
+Definition site_cdc (n : netlist) (S : port -> list src) (nd : node) : bool :=
+  let ps := pin_source n in
+  existsb (fun s => match s, nth_error (nclocks nd) 0 with
+                    | SrcClk d, Some (Some ic) => negb (Nat.eqb (ps d) (ps ic))
+                    | _, _ => true
+                    end) (in_srcs S nd 0).
+
+Definition site_b (n : netlist) (S : port -> list src) (nd : node) : bool :=
+  if uses_base_check (nkind nd) then site_base n S nd
+  else match nkind nd with KCdc => site_cdc n S nd | _ => false end.
 
 Definition has_crossing_b (n : netlist) (S : port -> list src) : bool := existsb (site_b n S) (nodes n).
